@@ -32,6 +32,11 @@ RECURSIVE SortedSeq(_)
 SortedSeq(S) == IF S = {} THEN <<>> ELSE LET m == CHOOSE x \in S : \A y \in S : x <= y
                                          IN <<m>> \o SortedSeq(S \ {m})
 
+\* helpers.ChunkSlice + VBucketDiscovery.Get: the contiguous vBucket set of member m of t (C09 proves it a partition)
+ChunkLoP(t, m) == LET q == NVB \div t  r == NVB % t IN (m - 1) * q + (IF m - 1 < r THEN m - 1 ELSE r) + 1
+ChunkHiP(t, m) == LET q == NVB \div t  r == NVB % t IN m * q + (IF m < r THEN m ELSE r)
+ChunkSet(i) == {v \in VB : ChunkLoP(i[2], i[1]) <= v /\ v <= ChunkHiP(i[2], i[1])}
+
 DocKinds == {"mut", "del", "exp"}
 IsDoc(e) == e.k \in DocKinds
 Reserved(e) == e.key \in {"conn", "txn"}
@@ -68,7 +73,19 @@ ObsInit == [
   news     |-> FALSE,                     \* an ack / non-document advance happened that no save has picked up yet
   conf     |-> [v \in VB |-> 0 - 1],      \* seqno the library was TOLD is durable (successful saves, loads)
   range    |-> {},                        \* vBuckets assigned in the current session
+  owned    |-> {},                        \* vBuckets settled while assigned and not yet covered by a successful save
   saves    |-> {},                        \* saves in flight: records [t, need, idle, valid, wrote, failed]
+  \* ---- lifecycle ------------------------------------------------------------
+  phase    |-> "init",                    \* position in the bracket grammar of lifecycle callbacks (C11)
+  auto     |-> FALSE,                     \* automatic checkpointing (final save in Close)
+  minfo    |-> <<1, 1>>,                  \* membership most recently announced
+  nbursts  |-> 0, ncycles |-> 0, burstOpen |-> FALSE,
+  ended    |-> {},                        \* assigned vBuckets whose stream ended for good (C12)
+  reopen   |-> {},                        \* vBuckets whose transient end must be followed by a re-open (C12)
+  high     |-> [v \in VB |-> 0 - 1],      \* high seqnos the server reported at open (C15)
+  closeCalled |-> FALSE, closeReturned |-> FALSE, stoppedSeen |-> FALSE,
+  needClose |-> [v \in VB |-> 0 - 1],    \* positions settled before Close() was called (C13)
+  closereq |-> {},                        \* vBuckets for which CloseStream was requested since they were opened
   viol     |-> {}
 ]
 
@@ -87,48 +104,82 @@ Unconfirmed(o) == {v \in VB : o.adv[v] > o.conf[v]}
 (* one clause per observable event                                          *)
 
 ApBoot(o, e) ==
-  [o EXCEPT !.up = TRUE, !.boots = @ + 1, !.saves = {}, !.closing = FALSE, !.mustdie = FALSE,
+  [o EXCEPT !.phase = "init", !.auto = e.auto, !.minfo = <<e.member, e.total>>, !.nbursts = 0, !.ncycles = 0,
+            !.burstOpen = FALSE, !.ended = {}, !.reopen = {}, !.closeCalled = FALSE, !.closeReturned = FALSE,
+            !.stoppedSeen = FALSE, !.closereq = {}, !.high = [v \in VB |-> 0 - 1],
+            !.up = TRUE, !.boots = @ + 1, !.saves = {}, !.closing = FALSE, !.mustdie = FALSE,
             !.streaming = [v \in VB |-> FALSE], !.inpush = [v \in VB |-> FALSE], !.range = {},
-            !.adv = [v \in VB |-> 0 - 1], !.conf = [v \in VB |-> StoreSeq(o, v)], !.news = FALSE]
+            !.adv = [v \in VB |-> 0 - 1], !.conf = [v \in VB |-> StoreSeq(o, v)], !.news = FALSE, !.owned = {}]
 
 ApDied(o, e) == [o EXCEPT !.up = FALSE, !.mustdie = FALSE]
 
 \* metadata.Load(vbs): a stream session begins for exactly these vBuckets
 ApLoad(o, e) ==
-  [o EXCEPT !.range = SeqToSet(e.vbs), !.adv = [v \in VB |-> 0 - 1], !.closing = FALSE,
-            !.sess = [v \in VB |-> {}]]
+  Check(
+  \* (acknowledgements that arrived while no session was open are given up: the new session loads the store)
+  [o EXCEPT !.ended = {}, !.reopen = {}, !.closereq = {},
+            !.saves = {[x EXCEPT !.need = [v \in VB |-> 0 - 1]] : x \in @},
+            !.range = SeqToSet(e.vbs), !.adv = [v \in VB |-> 0 - 1], !.closing = FALSE,
+            !.sess = [v \in VB |-> {}]],
+  SeqToSet(e.vbs) = ChunkSet(o.minfo), "C11", "session opened on a range that is not that of the most recent membership")
+
+\* GetVBucketSeqNos answered: e.ok, e.high
+ApSeqNos(o, e) ==
+  IF ~e.ok THEN [o EXCEPT !.mustdie = TRUE]
+  ELSE LET latest == e.latest /\ \A v \in o.range : o.store[v] = NoOff
+           ahead == ~latest /\ \E v \in o.range : o.store[v] # NoOff /\ o.store[v].seq > e.high[v]
+       IN [o EXCEPT !.high = e.high, !.mustdie = ahead]
+
+\* a start-up query failed (metadata.Load, failover log)
+ApFail(o, e) == [o EXCEPT !.mustdie = TRUE]
 
 \* client.OpenStream(vb, offset): a stream request. e.off, e.end
 \* (a first request of a session, or a re-open after a transient end)
 ApOpenReq(o, e) ==
   LET v == e.vb
       fresh == o.store[v] = NoOff /\ e.off.seq > 0      \* auto-reset "latest": the position itself is news
-  IN  [o EXCEPT !.resume[v] = e.off, !.sess[v] = @ \cup {e.off.seq}, !.ever[v] = @ \cup {e.off.seq},
+      isReopen == v \in o.reopen
+      \* the first request of a session starts the vBucket's settlement afresh (acknowledgements that arrived while
+      \* the session was being set up belong to the previous one); a re-open continues it
+      o1 == [o EXCEPT !.resume[v] = e.off, !.sess[v] = IF isReopen THEN @ \cup {e.off.seq} ELSE {e.off.seq},
+                !.ever[v] = @ \cup {e.off.seq},
                 !.streaming[v] = TRUE, !.expect[v] = <<>>, !.got[v] = <<>>,
                 !.snap[v] = <<0 - 1, 0 - 1>>, !.catchF[v] = 0 - 1,
-                !.origin[v] = @ \cup {e.off},
-                !.adv[v] = IF fresh /\ e.off.seq > @ THEN e.off.seq ELSE @]
+                !.origin[v] = @ \cup {e.off}, !.reopen = @ \ {v}, !.closereq = @ \ {v},
+                !.adv[v] = IF isReopen THEN @ ELSE IF fresh THEN e.off.seq ELSE 0 - 1,
+                !.saves = IF isReopen THEN @ ELSE {[x EXCEPT !.need[v] = 0 - 1] : x \in @}]
+      o2 == Check(o1, ~o.closeReturned, "C13", "stream requested after Close() returned")
+      o3 == Check(o2, v \notin o.ended, "C12", "a stream that ended for good was requested again")
+      o4 == IF isReopen
+            THEN Check(o3, e.off.seq = MaxOf(o.sess[v] \cup {e.off.seq}) /\ e.off.seq \in o.sess[v], "C12",
+                       "re-open after a transient end is not from the latest settled position")
+            ELSE o3
+      o5 == Check(o4, o.high[v] < 0 \/ e.off.seq <= o.high[v], "C15",
+                  "stream requested from a position the server has not reached")
+  IN  Check(o5, ~o.mustdie, "C15", "start-up went on after a failed query or an inconsistent checkpoint")
 
 \* the server's answer: e.uuid = first failover entry; e.rollback = TRUE when the stream was
 \* opened after a rollback to e.r (then e.f = position the client had reached)
 ApOpenRet(o, e) ==
   LET v == e.vb IN
   IF e.ok THEN [o EXCEPT !.uuid[v] = e.uuid, !.catchF[v] = IF e.rollback THEN e.f ELSE 0 - 1]
-  ELSE [o EXCEPT !.streaming[v] = FALSE]
+  ELSE [o EXCEPT !.streaming[v] = FALSE, !.mustdie = IF o.phase \in {"st1", "re2"} THEN TRUE ELSE @]
 
 \* the server sent event e.e on the stream of e.vb (it is handed to the library)
 ApSent(o, e) ==
   LET v == e.vb
       x == e.e
-      o0 == [o EXCEPT !.inpush[v] = TRUE]
+      dead == o.closing \/ ~o.streaming[v]        \* the event arrives on a stream the library has closed / not requested
+      o0 == [o EXCEPT !.inpush[v] = TRUE,
+                      !.high[v] = IF x.k # "mark" /\ @ >= 0 /\ x.q > @ THEN x.q ELSE @]   \* the server has reached x.q
   IN
   IF x.k = "mark" THEN [o0 EXCEPT !.snap[v] = <<x.s, x.e>>]
   ELSE IF x.k = "adv" THEN
        LET f == Off(o.uuid[v], x.q, x.q, x.q) IN
        [o0 EXCEPT !.snap[v] = <<x.q, x.q>>, !.origin[v] = @ \cup {f},
                   !.ever[v] = @ \cup {x.q},
-                  !.sess[v] = IF o.closing THEN @ ELSE @ \cup {x.q},
-                  !.adv[v] = IF o.closing \/ v \notin o.range THEN @ ELSE IF x.q > @ THEN x.q ELSE @]
+                  !.sess[v] = IF dead THEN @ ELSE @ \cup {x.q},
+                  !.adv[v] = IF dead \/ v \notin o.range THEN @ ELSE IF x.q > @ THEN x.q ELSE @]
   ELSE \* document or system event
        LET f == Off(o.uuid[v], x.q, o.snap[v][1], o.snap[v][2])
            filtered == (IsDoc(x) /\ x.old) \/ (o.catchF[v] >= 0 /\ x.q <= o.catchF[v])
@@ -139,10 +190,10 @@ ApSent(o, e) ==
        ELSE IF ~inside THEN [o1 EXCEPT !.mustdie = TRUE]
        ELSE IF Absorbable(x) THEN
             [o1 EXCEPT !.ever[v] = @ \cup {x.q},
-                       !.sess[v] = IF o.closing THEN @ ELSE @ \cup {x.q},
-                       !.adv[v] = IF o.closing \/ v \notin o.range \/ ~NonDocAdvance(x) THEN @
+                       !.sess[v] = IF dead THEN @ ELSE @ \cup {x.q},
+                       !.adv[v] = IF dead \/ v \notin o.range \/ ~NonDocAdvance(x) THEN @
                                   ELSE IF x.q > @ THEN x.q ELSE @]
-       ELSE IF IsDoc(x) /\ ~o.closing
+       ELSE IF IsDoc(x) /\ ~dead
             THEN [o1 EXCEPT !.expect[v] = Append(@, [k |-> x.k, q |-> x.q, off |-> f])]
             ELSE o1
 
@@ -151,7 +202,7 @@ ApPushed(o, e) ==
   LET v == e.vb
       o1 == [o EXCEPT !.inpush[v] = FALSE]
       o2 == Check(o1, ~o.mustdie, "C06", "event outside its snapshot did not stop the client")
-  IN  IF o.closing THEN o2
+  IN  IF o.closing \/ ~o.streaming[v] THEN o2
       ELSE Check(o2, Len(o.got[v]) = Len(o.expect[v]), "C03", "document event sent but not delivered")
 
 \* ConsumeEvent(ctx): e.vb, e.k, e.q, e.key, e.off
@@ -164,7 +215,8 @@ ApConsume(o, e) ==
       o3 == Check(o2, e.key = "user", "C14", "event under a reserved prefix shown to the consumer")
       o4 == Check(o3, ValidOff(e.off) /\ e.off \in o.origin[v] /\ e.off.seq = e.q /\ e.off.uuid = o.uuid[v],
                   "C06", "delivered offset is not the event's own resume point")
-      o5 == Check(o4, ~o.closing, "C11", "event delivered while the stream is closed")
+      o5a == Check(o4, ~o.closing, "C11", "event delivered while the stream is closed")
+      o5 == Check(o5a, ~o.closeReturned, "C13", "event handed to the consumer after Close() returned")
   IN  Check(o5, ~o.mustdie, "C06", "event outside its snapshot was delivered")
 
 \* consumer.TrackOffset(vb, off)
@@ -182,6 +234,7 @@ ApAck(o, e) ==
   IF ~o.up THEN o ELSE
   [o EXCEPT !.ever[v] = @ \cup {e.off.seq},
             !.sess[v] = IF v \in o.range THEN @ \cup {e.off.seq} ELSE @,
+            !.owned = IF v \in o.range THEN @ \cup {v} ELSE @,
             !.adv[v] = IF v \in o.range /\ e.off.seq > @ THEN e.off.seq ELSE @]
 
 \* any settlement while saves are in flight makes them non-idle
@@ -191,7 +244,8 @@ Touch(o) == [o EXCEPT !.saves = {[s EXCEPT !.idle = FALSE] : s \in @}, !.news = 
 ApSaveCall(o, e) ==
   [o EXCEPT !.saves = {s \in @ : s.t # e.t} \cup
       {[t |-> e.t, need |-> [v \in VB |-> IF v \in Pending(o) THEN o.adv[v] ELSE 0 - 1],
-        idle |-> Unconfirmed(o) = {} /\ ~o.news, valid |-> [v \in VB |-> {}], begun |-> FALSE, failed |-> FALSE]}]
+        idle |-> Unconfirmed(o) = {} /\ ~o.news, valid |-> [v \in VB |-> {}], begun |-> FALSE, failed |-> FALSE,
+        rng |-> {}]}]
 
 SaveOf(o, t) == CHOOSE s \in o.saves : s.t = t
 HasSave(o, t) == \E s \in o.saves : s.t = t
@@ -201,8 +255,9 @@ UpdSave(o, t, s2) == [o EXCEPT !.saves = {s \in @ : s.t # t} \cup {s2}]
 ApSaveBegin(o, e) ==
   LET s == IF HasSave(o, e.t) THEN SaveOf(o, e.t)
            ELSE [t |-> e.t, need |-> [v \in VB |-> 0 - 1], idle |-> FALSE,
-                 valid |-> [v \in VB |-> {}], begun |-> FALSE, failed |-> FALSE]
-      s2 == [s EXCEPT !.begun = TRUE, !.valid = [v \in VB |-> o.ever[v]]]
+                 valid |-> [v \in VB |-> {}], begun |-> FALSE, failed |-> FALSE, rng |-> {}]
+      \* the vBuckets assigned when the dump was taken are the ones this save may write
+      s2 == [s EXCEPT !.begun = TRUE, !.valid = [v \in VB |-> o.ever[v]], !.rng = o.range \cup o.owned]
       o1 == [UpdSave(o, e.t, s2) EXCEPT !.news = FALSE]
       bad == {v \in SeqToSet(e.dirty) : e.dump[v] # NoOff /\
                  ~(ValidOff(e.dump[v]) /\ e.dump[v] \in o.origin[v])}
@@ -217,11 +272,11 @@ ApStoreWrite(o, e) ==
                   "C01", "durable checkpoint names a position that was not settled before the write began")
       o3 == Check(o2, ~(HasSave(o, e.t) /\ s.idle), "C05", "a save issued when nothing changed performed a write")
       o4 == Check(o3, ValidOff(e.off) /\ e.off \in o.origin[v], "C06", "stored offset is torn or never issued")
-  IN  Check(o4, v \in o.range, "C04", "checkpoint written for a vBucket outside the assigned range")
+  IN  Check(o4, HasSave(o, e.t) /\ v \in s.rng, "C04", "checkpoint written for a vBucket outside the assigned range")
 
 \* metadata.Save returned (e.ok)
 ApSaveEnd(o, e) ==
-  LET o1 == IF e.ok THEN [o EXCEPT !.conf = [v \in VB |-> StoreSeq(o, v)]] ELSE Touch(o) IN
+  LET o1 == IF e.ok THEN [o EXCEPT !.conf = [v \in VB |-> StoreSeq(o, v)], !.owned = {}] ELSE Touch(o) IN
   IF ~HasSave(o, e.t) THEN o1
   ELSE UpdSave(o1, e.t, [SaveOf(o1, e.t) EXCEPT !.failed = ~e.ok])
 
@@ -235,10 +290,83 @@ ApSaveRet(o, e) ==
       ELSE Check(o1, lost = {}, "C05", "save completed but a position settled before it began is not stored")
 
 
+\* bracket grammar of the lifecycle callbacks: phase x callback -> phase
+NextPhase(ph, n) ==
+  CASE ph = "init"  /\ n = "BeforeStreamStart"    -> "st1"
+    [] ph = "st1"   /\ n = "AfterStreamStart"     -> "open"
+    [] ph = "open"  /\ n = "BeforeRebalanceStart" -> "rb1"
+    [] ph = "rb1"   /\ n = "BeforeStreamStop"     -> "rb2"
+    [] ph = "rb2"   /\ n = "AfterStreamStop"      -> "rb3"
+    [] ph = "rb3"   /\ n = "AfterRebalanceStart"  -> "delay"
+    [] ph = "delay" /\ n = "BeforeRebalanceEnd"   -> "re1"
+    [] ph = "re1"   /\ n = "BeforeStreamStart"    -> "re2"
+    [] ph = "re2"   /\ n = "AfterStreamStart"     -> "re3"
+    [] ph = "re3"   /\ n = "AfterRebalanceEnd"    -> "open"
+    [] ph = "open"  /\ n = "BeforeStreamStop"     -> "cl1"
+    [] ph = "cl1"   /\ n = "AfterStreamStop"      -> "closed"
+    [] OTHER -> "bad"
+
 ApCallback(o, e) ==
-  IF e.name = "BeforeStreamStop" THEN [o EXCEPT !.closing = TRUE]
-  ELSE IF e.name = "AfterStreamStop" THEN [o EXCEPT !.streaming = [v \in VB |-> FALSE]]
-  ELSE o
+  LET np == NextPhase(o.phase, e.name)
+      o0 == IF np = "bad" THEN Viol(o, "C11", "lifecycle callbacks are not properly bracketed")
+            ELSE [o EXCEPT !.phase = np]
+      o1 == IF e.name = "BeforeStreamStop" THEN [o0 EXCEPT !.closing = TRUE]
+            ELSE IF e.name = "AfterStreamStop"
+                 \* the session is over: nothing is assigned any more, unsaved positions of the session are given up
+                 \* (its events are delivered again after the re-open); C13 keeps its own obligation (needClose)
+                 THEN [o0 EXCEPT !.streaming = [v \in VB |-> FALSE], !.adv = [v \in VB |-> 0 - 1],
+                                 !.saves = {[x EXCEPT !.need = [v \in VB |-> 0 - 1]] : x \in @}]
+            ELSE o0
+      o2 == IF e.name = "BeforeRebalanceStart"
+            THEN Check([o1 EXCEPT !.ncycles = @ + 1], o.ncycles + 1 <= o.nbursts, "C11",
+                       "the stream was closed more than once for one burst of notifications")
+            ELSE o1
+      o3 == IF e.name = "BeforeRebalanceEnd" THEN [o2 EXCEPT !.burstOpen = FALSE] ELSE o2
+      o4 == IF e.name = "AfterStreamStart"
+            THEN Check(Check(o3, \A v \in o.range : o.streaming[v], "C15",
+                             "session runs although not every assigned vBucket stream was opened"),
+                       ~o.mustdie, "C15", "start-up went on after a failed query or an inconsistent checkpoint")
+            ELSE o3
+  IN  o4
+
+\* a membership change reached the stream (bus / API): e.src, e.member, e.total
+ApNotify(o, e) ==
+  [o EXCEPT !.minfo = <<e.member, e.total>>,
+            !.nbursts = IF o.burstOpen THEN @ ELSE @ + 1, !.burstOpen = TRUE]
+
+\* the server ended the stream of e.vb with e.cause
+ApEndSent(o, e) ==
+  LET v == e.vb IN
+  IF ~o.streaming[v] THEN o
+  ELSE IF e.cause \in TransientCauses /\ ~o.closing /\ ~o.closeCalled /\ o.phase = "open"
+  THEN [o EXCEPT !.reopen = @ \cup {v}, !.streaming[v] = FALSE]
+  ELSE IF o.closing \/ v \in o.closereq THEN [o EXCEPT !.streaming[v] = FALSE]
+  ELSE [o EXCEPT !.ended = @ \cup {v}, !.streaming[v] = FALSE]
+
+ApCloseReq(o, e) == [o EXCEPT !.closereq = @ \cup {e.vb}]
+
+\* the stop channel was closed: the client stops on its own
+ApStopped(o, e) ==
+  LET o1 == [o EXCEPT !.stoppedSeen = TRUE] IN
+  IF o.closeCalled THEN o1      \* Close() was asked for: not a stop "on its own"
+  ELSE IF o.phase \in {"rb1", "rb2", "rb3", "delay", "re1", "re2", "re3"}
+  THEN Viol(o1, "C11", "a rebalance terminated the client")
+  ELSE Check(o1, o.range # {} /\ o.range \subseteq o.ended, "C12",
+             "the client stopped although an assigned vBucket stream had not ended for good")
+
+ApCloseCall(o, e) ==
+  [o EXCEPT !.closeCalled = TRUE,
+            !.needClose = [v \in VB |-> IF o.auto /\ v \in Pending(o) THEN o.adv[v] ELSE 0 - 1]]
+
+ApCloseReturn(o, e) ==
+  LET lost == {v \in VB : o.needClose[v] >= 0 /\ StoreSeq(o, v) < o.needClose[v]}
+      open_ == {v \in VB : o.streaming[v] /\ v \notin o.closereq}
+      o1 == [o EXCEPT !.closeReturned = TRUE]
+      o2 == Check(o1, lost = {}, "C13", "Close() returned but a position settled before the call is not stored")
+  IN  Check(o2, open_ = {}, "C13", "Close() returned but a vBucket stream was never closed")
+
+ApDiedLife(o, e) ==
+  IF o.closeCalled /\ ~o.closeReturned THEN Viol(o, "C13", "the client crashed inside Close()") ELSE o
 
 \* API-visible state after a step: e.offsets : VB -> Off | NoOff, e.open
 ApState(o, e) ==
@@ -247,14 +375,28 @@ ApState(o, e) ==
       o1 == IF e.open /\ ~o.closing /\ \A v \in VB : ~o.inpush[v]
             THEN Check(o, bad = {}, "C04", "position exposed by the offsets API is not the furthest settled one")
             ELSE o
-  IN  IF e.open /\ ~o.closing
-      THEN Check(o1, stray = {}, "C04", "position tracked for a vBucket outside the assigned range")
-      ELSE o1
+      o2 == IF e.open /\ ~o.closing
+            THEN Check(o1, stray = {}, "C04", "position tracked for a vBucket outside the assigned range")
+            ELSE o1
+      o3 == Check(o2, o.reopen = {}, "C12", "a transient stream end was not followed by a re-open")
+      o4 == IF o.phase = "open" /\ ~o.closeCalled /\ ~o.stoppedSeen
+            THEN Check(o3, e.active = Cardinality(o.range \ o.ended), "C12",
+                       "active-stream count differs from the number of assigned vBuckets not finally ended")
+            ELSE o3
+  IN  Check(o4, ~o.mustdie, "C15", "the client kept running after a fail-stop condition")
 
 Apply(o, e) ==
   CASE e.ev = "Boot"       -> ApBoot(o, e)
-    [] e.ev = "Died"       -> ApDied(o, e)
+    [] e.ev = "Died"       -> ApDied(ApDiedLife(o, e), e)
     [] e.ev = "Crash"      -> ApDied(o, e)
+    [] e.ev = "SeqNos"     -> ApSeqNos(o, e)
+    [] e.ev = "Fail"       -> ApFail(o, e)
+    [] e.ev = "Notify"     -> ApNotify(o, e)
+    [] e.ev = "EndSent"    -> ApEndSent(o, e)
+    [] e.ev = "CloseReq"   -> ApCloseReq(o, e)
+    [] e.ev = "Stopped"    -> ApStopped(o, e)
+    [] e.ev = "CloseCall"  -> ApCloseCall(o, e)
+    [] e.ev = "CloseReturn" -> ApCloseReturn(o, e)
     [] e.ev = "Load"       -> ApLoad(o, e)
     [] e.ev = "OpenReq"    -> ApOpenReq(o, e)
     [] e.ev = "OpenRet"    -> ApOpenRet(o, e)
